@@ -294,8 +294,11 @@ class AST2SCFGTransformer:
         # Assert that the code handed in was a function, we can only transform
         # functions.
         assert isinstance(self.tree[0], ast.FunctionDef)
-        # Run recursive code generation.
-        self.codegen(self.tree)
+        # Run recursive code generation. Only the outermost function
+        # definition is lowered, nested definitions are refused by the
+        # dispatcher.
+        self.handle_function_def(self.tree[0])  # type: ignore
+        self.codegen(self.tree[1:])
         # Prune if requested.
         if self.prune:
             _ = self.blocks.prune_unreachable()
@@ -316,9 +319,7 @@ class AST2SCFGTransformer:
 
     def handle_ast_node(self, node: type[ast.AST] | ast.stmt) -> None:
         """Dispatch an AST node to handle."""
-        if isinstance(node, ast.FunctionDef):
-            self.handle_function_def(node)
-        elif isinstance(
+        if isinstance(
             node,
             (
                 ast.AugAssign,
